@@ -1,0 +1,15 @@
+//go:build verif
+
+package generic
+
+import "sync/atomic"
+
+// VerifYieldFunc, when set, is called at named yield points of the callback handling so that a
+// verification harness can force a particular order of those steps.
+var VerifYieldFunc atomic.Pointer[func(point string)] //nolint:gochecknoglobals
+
+func verifYield(point string) {
+	if f := VerifYieldFunc.Load(); f != nil {
+		(*f)(point)
+	}
+}
